@@ -1,5 +1,69 @@
-(* Wire entry points of the C19 model (stub until the model is built). *)
-From Coq Require Import ZArith List.
-From SG Require Import Base.Sx.
+(* Wire entry points of the C19 model (Classification: learning-time scaling, call/test/evaluate sequences). *)
+From Coq Require Import ZArith List QArith Qcanon Bool.
+From SG Require Import Base.Sx Base.QcUtil Model.DataSet Model.Classify Entry.C18.
+Import ListNotations.
 Open Scope Z_scope.
-Definition entry_C19 (sub : Z) (a : sx) : sx := sx_err 0.
+
+Definition of_summary (s : Z * Z * Qc) : sx := let '(w, t, p) := s in Lv [Zv w; Zv t; of_Qc p].
+
+Definition of_outcome (o : outcome) : sx :=
+  match o with
+  | ORaise d => Lv [Zv 1; of_ds d]
+  | OCall d cls => Lv [Zv 0; of_ds d; of_LZ cls]
+  | OTest d cls s => Lv [Zv 0; of_ds d; of_LZ cls; of_summary s]
+  end.
+
+(* one later call: (1 dataset dens) = __call__, (2 dataset dens) = test_data, (3) = evaluate; observation + calc afterwards *)
+Definition cstep (v : variant) (cv : cvariant) (st : cstate) (op : sx) : cstate * sx :=
+  match op with
+  | Lv [Zv 1; d; dens] =>
+    match get_ds d, get_LLQc dens with
+    | Some d, Some dens => let '(st', o) := call v cv st d dens in (st', Lv [of_outcome o; of_LZ (c_calc st')])
+    | _, _ => (st, sx_err 11)
+    end
+  | Lv [Zv 2; d; dens] =>
+    match get_ds d, get_LLQc dens with
+    | Some d, Some dens => let '(st', o) := test_data v cv st d dens in (st', Lv [of_outcome o; of_LZ (c_calc st')])
+    | _, _ => (st, sx_err 12)
+    end
+  | Lv [Zv 3] =>
+    (st, Lv [match evaluate st with Some s => Lv [Zv 0; of_summary s] | None => Lv [Zv 1] end; of_LZ (c_calc st)])
+  | _ => (st, sx_err 10)
+  end.
+
+Fixpoint crun (v : variant) (cv : cvariant) (st : cstate) (ops : list sx) : list sx :=
+  match ops with
+  | [] => []
+  | op :: r => let '(st', o) := cstep v cv st op in o :: crun v cv st' r
+  end.
+
+Definition get_range (s : sx) : option (option (row * row)) :=
+  match s with
+  | Lv [] => Some None
+  | Lv [mn; mx] => match get_LQc mn, get_LQc mx with Some mn, Some mx => Some (Some (mn, mx)) | _, _ => None end
+  | _ => None
+  end.
+
+(* sub 0: ((dedup fullcmp store labelmap) dataset data_range class_labels test_labels dens_test (op ...))
+          -> ((0 min max fac scaled omitted) calc0 obs...)  |  ((1)) when the initialisation raises
+   sub 1: (densities) -> arg-max index (numpy argmax) *)
+Definition entry_C19 (sub : Z) (a : sx) : sx :=
+  match sub, a with
+  | 0, Lv [Lv [vd; vf; vs; vl]; d; rg; cl; tl; dt; Lv ops] =>
+    match get_bool vd, get_bool vf, get_bool vs, get_bool vl, get_ds d, get_range rg, get_LZ cl, get_LZ tl, get_LLQc dt with
+    | Some vd, Some vf, Some vs, Some vl, Some d, Some rg, Some cl, Some tl, Some dt =>
+      let v := mkVariant vd vf in
+      let cv := mkCV vs vl in
+      match initialize v d rg with
+      | None => Lv [Lv [Zv 1]]
+      | Some ir =>
+        let calc0 := match tl with [] => [] | _ => classificate cv cl dt end in
+        let st := mkC (i_min ir) (i_max ir) (i_fac ir) (i_scaled ir) cl tl calc0 true in
+        Lv (Lv [Zv 0; of_LQc (i_min ir); of_LQc (i_max ir); of_LQc (i_fac ir); of_ds (i_scaled ir); of_ds (i_omitted ir)]
+            :: of_LZ calc0 :: crun v cv st ops)
+      end
+    | _, _, _, _, _, _, _, _, _ => sx_err 3
+    end
+  | 1, l => match get_LQc l with Some l => Zv (Z.of_nat (argmax l)) | None => sx_err 4 end
+  | _, _ => sx_err 0
+  end.
